@@ -1,1 +1,388 @@
--- C11: property theorems (to be filled in)
+/-
+C11 — property theorems.  Injected C++ functions are applied hygienically at every call site.
+
+Every statement quantifies over all specifications / lines / argument texts / call trees; nothing
+is bounded.  `W` is the class of word characters: all of Part A holds for *every* `W`, the
+instance used for ASCII text is `asciiWord` = `[A-Za-z0-9_]`.  Helper lemmas are in `Proofs.lean`.
+
+Where the full statement is false of the code there is a `_counterexample` on a literal and the
+proved statement is named `_partial` with the excluded inputs as a decidable hypothesis:
+  * method-style call of an injected function on a receiver that is not a plain name
+    (`ReceiverPlain`; `receiver_not_name_counterexample`);
+  * result-variable names glue a counter to the function name without separator, so names
+    ending in a digit can collide (`PrefixOk`; `fresh_counterexample`);
+  * parameter names that are not words of the regex class (`WordNames`/`WF`; outside ASCII the
+    regex class `\w` and the identifier class differ: `nonword_name_counterexample`).
+-/
+import FaxVerif.C11.Proofs
+namespace FaxVerif.C11
+
+/-! ## Part A — substitution of the arguments (`_replace_whole_words`) -/
+
+/-- What "whole word" means: `tokenise` cuts the line into non-empty runs, each of word
+characters only or of non-word characters only, neighbouring runs of different kind (so the
+runs are maximal), and nothing is lost. -/
+theorem tokenise_spec (W : Char → Bool) (l : Str) :
+    detok (tokenise W l) = l ∧ (∀ t ∈ tokenise W l, TokOk W t) ∧ Alternating (tokenise W l) :=
+  ⟨detok_tokenise W l, tokenise_ok W l, tokenise_alt W l⟩
+
+/-- …and that decomposition is the only one with these properties. -/
+theorem tokenise_is_unique (W : Char → Bool) (ts : List Tok) (hok : ∀ t ∈ ts, TokOk W t)
+    (halt : Alternating ts) : tokenise W (detok ts) = ts :=
+  tokenise_unique W ts hok halt
+
+/-- **Simultaneous whole-word substitution.**  The code (dict with first binding winning,
+alternatives sorted by length, one combined regex `\bs1\b|\bs2\b|…`, `re.sub` with a function
+replacement) computes exactly the map over word / non-word runs that replaces each word run
+that is a parameter by that parameter's argument text — for every line, every list of
+bindings whose source names are words, every replacement text (which is never inspected). -/
+theorem subst_sim (W : Char → Bool) (ps : List Binding) (h : WordNames W ps) (line : Str) :
+    SubstSpec W ps line (replaceWholeWords W ps line) :=
+  replaceWholeWords_eq W ps h line
+
+/-- Only whole words, and every whole word: the output is the concatenation of one piece per
+run of the line; the piece of a word run that is a parameter is the text bound to it (first
+binding), the piece of every other run — non-word text, words that are not parameters, in
+particular longer words that merely contain a parameter name — is the run itself. -/
+theorem only_whole_words (W : Char → Bool) (ps : List Binding) (h : WordNames W ps) (line : Str) :
+    ∃ piece : Tok → Str,
+      (∀ t, (t.isWord = true ∧ lookup ps t.text = some (piece t)) ∨
+            ((t.isWord = false ∨ lookup ps t.text = none) ∧ piece t = t.text)) ∧
+      replaceWholeWords W ps line = (tokenise W line).flatMap piece := by
+  refine ⟨substTok ps, ?_, ?_⟩
+  · intro t
+    unfold substTok
+    cases hw : t.isWord with
+    | false => simp
+    | true =>
+      cases hl : lookup ps t.text with
+      | none => simp
+      | some d => simp
+  · rw [replaceWholeWords_eq W ps h line, substSim]
+
+/-- Cutting the line at a whole-word occurrence `w` (text before does not end in a word
+character, text after does not start with one): the occurrence is replaced by *its own*
+argument text `d`, put in verbatim whatever it contains (it is never scanned again, so an
+argument mentioning another parameter is not captured), and the rest of the line is treated
+independently of it. If `w` is not a parameter it is kept. -/
+theorem occurrence_replaced (W : Char → Bool) (ps : List Binding) (h : WordNames W ps)
+    (a w b : Str) (hw : w ≠ []) (hwk : AllW W true w) (ha : LastIs W false a) (hb : HeadIs W false b) :
+    replaceWholeWords W ps (a ++ w ++ b) =
+      replaceWholeWords W ps a ++ (lookup ps w).getD w ++ replaceWholeWords W ps b := by
+  simp only [replaceWholeWords_eq W ps h]
+  rw [List.append_assoc, substSim_append W ps a.length a (w ++ b) rfl (Or.inl ha),
+    substSim_run_word W ps w b hw hwk hb, List.append_assoc]
+
+/-- Text outside words is never touched and separates what is on its two sides. -/
+theorem gap_untouched (W : Char → Bool) (ps : List Binding) (h : WordNames W ps)
+    (a g b : Str) (hg : g ≠ []) (hgk : AllW W false g) :
+    replaceWholeWords W ps (a ++ g ++ b) = replaceWholeWords W ps a ++ g ++ replaceWholeWords W ps b := by
+  simp only [replaceWholeWords_eq W ps h]
+  have hh : HeadIs W false (g ++ b) := by
+    intro c hc
+    cases g with
+    | nil => exact absurd rfl hg
+    | cons x xs => simp at hc; subst hc; exact hgk _ (by simp)
+  have hl : LastIs W false g := fun c hc => hgk c (List.mem_of_getLast? hc)
+  rw [List.append_assoc, substSim_append W ps a.length a (g ++ b) rfl (Or.inr hh),
+    substSim_append W ps g.length g b rfl (Or.inl hl), substSim_gap W ps g hgk, List.append_assoc]
+
+/-- A line in which no parameter occurs as a whole word is emitted unchanged. -/
+theorem identity_no_param (W : Char → Bool) (ps : List Binding) (h : WordNames W ps) (line : Str)
+    (hno : ∀ t ∈ tokenise W line, t.isWord = true → t.text ∉ keys ps) :
+    replaceWholeWords W ps line = line := by
+  rw [replaceWholeWords_eq W ps h]
+  have : (tokenise W line).flatMap (substTok ps) = detok (tokenise W line) := by
+    unfold detok
+    apply flatMap_congr'
+    intro t ht
+    unfold substTok
+    cases hw : t.isWord with
+    | false => simp
+    | true => simp [lookup_eq_none_of_not_mem ps t.text (hno t ht hw)]
+  rw [substSim, this, detok_tokenise]
+
+/-- Hygiene / composition law: with distinct parameter names the result does not depend on the
+order in which the bindings are listed (so it cannot depend on a substitution order). -/
+theorem order_irrelevant (W : Char → Bool) (ps qs : List Binding) (h : WordNames W ps)
+    (hn : (keys ps).Nodup) (hp : ps.Perm qs) (line : Str) :
+    replaceWholeWords W ps line = replaceWholeWords W qs line := by
+  have hq : WordNames W qs := fun p hp' => h p ((List.Perm.mem_iff hp).2 hp')
+  rw [replaceWholeWords_eq W ps h, replaceWholeWords_eq W qs hq]
+  exact substSim_congr W ps qs (lookup_perm ps qs hp hn) line
+
+/-- A second binding of a name that is already bound is ignored (first binding wins). -/
+theorem first_binding_wins (W : Char → Bool) (a b : List Binding) (s d : Str)
+    (h : WordNames W (a ++ (s, d) :: b)) (hs : s ∈ keys a) (line : Str) :
+    replaceWholeWords W (a ++ (s, d) :: b) line = replaceWholeWords W (a ++ b) line := by
+  have h' : WordNames W (a ++ b) := fun p hp => h p (by
+    rcases List.mem_append.1 hp with hp | hp
+    · exact List.mem_append_left _ hp
+    · exact List.mem_append_right _ (List.mem_cons_of_mem _ hp))
+  rw [replaceWholeWords_eq W _ h, replaceWholeWords_eq W _ h']
+  exact substSim_congr W _ _ (fun w => lookup_append_dup a b s d w hs) line
+
+/-- No capture, in the form the defect had: two parameters whose argument texts mention each
+other's names (any texts at all) end up exchanged, not nested. -/
+theorem no_capture (W : Char → Bool) (p q dp dq g : Str) (hp : isWordStr W p = true)
+    (hq : isWordStr W q = true) (hpq : p ≠ q) (hg : g ≠ []) (hgk : AllW W false g) :
+    replaceWholeWords W [(p, dp), (q, dq)] (p ++ g ++ q) = dp ++ g ++ dq := by
+  have hwn : WordNames W [(p, dp), (q, dq)] := by
+    intro x hx
+    simp only [List.mem_cons, List.not_mem_nil, or_false] at hx
+    rcases hx with rfl | rfl
+    · exact hp
+    · exact hq
+  have hp' : p ≠ [] ∧ AllW W true p := by
+    simpa [isWordStr, AllW] using hp
+  have hq' : q ≠ [] ∧ AllW W true q := by
+    simpa [isWordStr, AllW] using hq
+  rw [replaceWholeWords_eq W _ hwn]
+  have hhead : HeadIs W false (g ++ q) := by
+    intro c hc
+    cases g with
+    | nil => exact absurd rfl hg
+    | cons x xs => simp at hc; subst hc; exact hgk _ (by simp)
+  have hq2 : HeadIs W true q := by
+    intro c hc
+    cases q with
+    | nil => simp at hc
+    | cons x xs => simp at hc; subst hc; exact hq'.2 _ (by simp)
+  rw [List.append_assoc, substSim_run_word W _ p (g ++ q) hp'.1 hp'.2 hhead,
+    substSim_run_gap W _ g q hg hgk hq2, substSim_word W _ q hq'.1 hq'.2]
+  simp [lookup, hpq]
+
+example : replaceWholeWords asciiWord [("pt".toList, "j.eta()".toList), ("eta".toList, "j.pt()".toList)]
+    "pt + eta".toList = "j.eta() + j.pt()".toList := by decide
+
+/-- The algorithm before the fix (one `re.sub` per parameter, each looking at what the previous
+one inserted) violates the specification on the input that is replayed as a regression test:
+parameters `(pt, eta)` called with `(j.eta(), j.pt())`. -/
+theorem seq_capture_counterexample :
+    ¬ SubstSpec asciiWord [("pt".toList, "j.eta()".toList), ("eta".toList, "j.pt()".toList)]
+        "pt + eta".toList
+        (substSeq asciiWord [("pt".toList, "j.eta()".toList), ("eta".toList, "j.pt()".toList)] "pt + eta".toList) := by
+  decide
+
+/-- Why `WordNames` is needed: a parameter name that ends in a character the regex does not
+class as a word character (here `x` followed by U+0302 COMBINING CIRCUMFLEX, a legal Python and
+C++ identifier) is never replaced, because `\b` cannot hold after it. `regexW` is the class the
+regex uses for the two characters, `identW` the identifier class. -/
+def regexW (c : Char) : Bool := asciiWord c
+def identW (c : Char) : Bool := asciiWord c || c == '̂'
+
+theorem nonword_name_counterexample :
+    replaceWholeWords regexW [(['x', '̂'], ['A'])] ['x', '̂', ' ', '+', ' ', 'x'] =
+      ['x', '̂', ' ', '+', ' ', 'x'] ∧
+    ¬ SubstSpec identW [(['x', '̂'], ['A'])] ['x', '̂', ' ', '+', ' ', 'x']
+        (replaceWholeWords regexW [(['x', '̂'], ['A'])] ['x', '̂', ' ', '+', ' ', 'x']) := by
+  decide
+
+/-! ## Part B — arity and call style (`build_CPPCodeValue`) -/
+
+/-- A call with the wrong number of arguments is rejected, whatever else is true of it. -/
+theorem arity (spec : FSpec) (f : Expr) (args : List Expr) (h : args.length ≠ spec.args.length) :
+    buildCPPCodeValue spec f args = .error .arity := by
+  simp [buildCPPCodeValue, h]
+
+/-- A function invoked like a method and a method invoked like a function are rejected. -/
+theorem call_style (spec : FSpec) (f : Expr) (args : List Expr) (h : args.length = spec.args.length) :
+    (spec.methodObject = none → (∃ r a, shape f = .attrName r a) ∨ (∃ a, shape f = .attrOther a) →
+        buildCPPCodeValue spec f args = .error .functionAsMethod) ∧
+    (spec.methodObject ≠ none → (∃ n, shape f = .name n) →
+        buildCPPCodeValue spec f args = .error .methodAsFunction) := by
+  constructor
+  · intro hm hs
+    rcases hs with ⟨r, a, hs⟩ | ⟨a, hs⟩ <;> simp [buildCPPCodeValue, h, hm, hs]
+  · intro hm ⟨n, hs⟩
+    cases hmo : spec.methodObject with
+    | none => exact absurd hmo hm
+    | some mo => simp [buildCPPCodeValue, h, hmo, hs]
+
+/-- Exactly the calls with the declared arity and the declared style are accepted; the accepted
+call carries the specification unchanged and, for a method, binds the method-object word to
+the receiver's name. -/
+theorem build_accepts_iff (spec : FSpec) (f : Expr) (args : List Expr) :
+    isOk (buildCPPCodeValue spec f args) = BuildAccepts spec f args ∧
+    ∀ e, buildCPPCodeValue spec f args = .ok e →
+      e = .cpp (spec.toCodeValue (expectedInstance spec f)) args :=
+  ⟨build_isOk spec f args, build_ok_form spec f args⟩
+
+/-! ## Part C — call sites (`cpp_ast_finder`) -/
+
+/-- A query is refused exactly when one of the call sites the finder recognises — anywhere in
+the expression, nested or repeated — is refused by its handler (wrong arity, wrong style,
+`getAttribute`). -/
+theorem finder_rejects_iff (tbl : Table) (e : Expr) : isOk (finder tbl e) = SitesOk tbl e := by
+  cases h : finder tbl e with
+  | ok e' => simp [isOk, ((finder_spec tbl e).1 e' h).1]
+  | error x => simp [isOk, (finder_spec tbl e).2 x h]
+
+/-
+Full statement (false of the code, see `receiver_not_name_counterexample`):
+  finder tbl e = .ok e' → NoPendingFull tbl e' = true
+-/
+/-- Every call of a name of the table — at any depth, any number of times — has been turned
+into injected code, provided no method-style call of such a name has a receiver other than a
+plain name (`ReceiverPlain`, the defect exclusion). -/
+theorem call_sites_found_partial (tbl : Table) (e e' : Expr) (h : finder tbl e = .ok e')
+    (hr : ReceiverPlain tbl e = true) : NoPendingFull tbl e' = true :=
+  ((finder_spec tbl e).1 e' h).2.2 hr
+
+/-- non-vacuity: a nested and repeated use satisfies the hypothesis and is rewritten -/
+example :
+    let s : FSpec := ⟨"f".toList, [], ["x".toList], ["auto result = x;".toList], "result".toList, "double".toList, false, none⟩
+    let tbl : Table := [("f".toList, .spec s)]
+    let e : Expr := .call (.name "f".toList) [.call (.name "f".toList) [.call (.attr (.name "j".toList) "pt".toList) []]]
+    ReceiverPlain tbl e = true ∧ isOk (finder tbl e) = true := by decide
+
+def jetTable : Table :=
+  [("getAttributeFloat".toList, .spec ⟨"getAttributeFloat".toList, ["vector".toList], ["moment_name".toList],
+      ["auto result = obj_j->getAttribute<float>(moment_name);".toList], "result".toList, "float".toList, false,
+      some "obj_j".toList⟩)]
+
+/-- The receiver restriction is real: `First(Jets).getAttributeFloat("emf")` is left as an
+ordinary method call (and then emitted as a call of a method the jet class does not have). -/
+theorem receiver_not_name_counterexample :
+    let e : Expr := .call (.attr (.call (.name "First".toList) [.opaque "jets".toList]) "getAttributeFloat".toList)
+                      [.const "\"emf\"".toList]
+    isOk (finder jetTable e) = true ∧
+    (match finder jetTable e with
+     | .ok e' => NoPendingFull jetTable e'
+     | .error _ => true) = false := by
+  decide
+
+/-! ## Part D — the emitted block (`process_ast_node`) -/
+
+/-- The method object is bound to the receiver, first: whatever the parameters are called, the
+method-object word is looked up to the receiver's C++ text (and then, by
+`occurrence_replaced`, every whole-word occurrence of it in the code is that text). -/
+theorem receiver_bound (cv : CodeValue) (mo r t : Str) (texts : List Str)
+    (h : cv.instance_ = some (mo, r)) : lookup (replList cv (some t) texts) mo = some t := by
+  simp [replList, h, lookup]
+
+/-- Result variable, own block, assignment last, declared type.  One call site, in any state
+of the enclosing block: the declarations and statements already there are kept; the first new
+declaration is the result variable `v` with the declared type (`std::vector<T>` for a
+collection) — in the *enclosing* block, so visible after the injected block; the last new
+statement is one block whose lines are the substituted template lines and whose final
+statement assigns the result name to `v`; everything the arguments emit comes before it. -/
+theorem result_visible (W : Char → Bool) (env : Env) (cv : CodeValue) (args : List Expr) (s s' : St) (v : Str)
+    (h : emit W env (.cpp cv args) s = .ok (v, s')) (hwf : cvWellFormed W cv = true) :
+    ∃ recv texts moreD moreB,
+      recvOf env cv = some recv ∧
+      v = uniqueName cv.varPrefix s.next ∧
+      s'.decls = s.decls ++ .decl (declType cv) v :: moreD ∧
+      s'.stmts = s.stmts ++ moreB ++ [.block (expectedLines W cv recv texts) v cv.result] ∧
+      texts.length = args.length := by
+  simp only [emit] at h
+  cases hr : recvOf env cv with
+  | none => simp [hr] at h
+  | some recv =>
+    simp only [hr] at h
+    cases hl : emitList W env args
+        { s with next := s.next + 1,
+                 decls := s.decls ++ [.decl (declType cv) (uniqueName cv.varPrefix s.next)],
+                 includes := addIncludes s.includes cv.includes } with
+    | error x => simp [hl] at h
+    | ok r =>
+      obtain ⟨texts, s2⟩ := r
+      simp only [hl, Except.ok.injEq, Prod.mk.injEq] at h
+      obtain ⟨rfl, rfl⟩ := h
+      obtain ⟨nd, nb, hd, hb, hlen, _⟩ := emitList_grows W env args _ texts s2 hl
+      refine ⟨recv, texts, nd, nb, rfl, rfl, ?_, ?_, hlen⟩
+      · simp [hd]
+      · simp [hb, blockLines_eq W cv hwf recv texts]
+
+/-- The include files of the specification are among the include files of the generated code. -/
+theorem includes_added (W : Char → Bool) (env : Env) (cv : CodeValue) (args : List Expr) (s s' : St) (v : Str)
+    (h : emit W env (.cpp cv args) s = .ok (v, s')) : ∀ i ∈ cv.includes, i ∈ s'.includes := by
+  simp only [emit] at h
+  cases hr : recvOf env cv with
+  | none => simp [hr] at h
+  | some recv =>
+    simp only [hr] at h
+    cases hl : emitList W env args
+        { s with next := s.next + 1,
+                 decls := s.decls ++ [.decl (declType cv) (uniqueName cv.varPrefix s.next)],
+                 includes := addIncludes s.includes cv.includes } with
+    | error x => simp [hl] at h
+    | ok r =>
+      obtain ⟨texts, s2⟩ := r
+      simp only [hl, Except.ok.injEq, Prod.mk.injEq] at h
+      obtain ⟨rfl, rfl⟩ := h
+      obtain ⟨_, _, _, _, _, hi⟩ := emitList_grows W env args _ texts s2 hl
+      intro i hic
+      exact hi i ((addIncludes_sub s.includes cv.includes).2 i hic)
+
+/-
+Full statement (false of the code, see `fresh_counterexample`): the same without `PrefixOkList`.
+-/
+/-- **All call sites of a query.**  For any list of columns (call trees, nested and repeated
+to any depth) emitted into an empty enclosing block: the blocks are exactly those of the call
+sites in evaluation order (arguments before the call that uses them), each one the substituted
+template followed by the assignment to a variable declared in the enclosing block with the
+declared type; an argument that is itself an injected call is passed as its result variable;
+include files are present; the declared variables are pairwise distinct.
+Hypotheses: parameter names are words (`WFList`), function names do not end in a digit
+(`PrefixOkList`, defect exclusion for the freshness clause only). -/
+theorem pipeline_sound_partial (W : Char → Bool) (env : Env) (cols : List Expr) (start : Nat)
+    (texts : List Str) (s : St)
+    (h : emitList W env cols ⟨start, [], [], []⟩ = .ok (texts, s))
+    (hwf : WFList W cols = true) (hp : PrefixOkList cols = true) :
+    PipeSpec W env cols ⟨s.decls, s.stmts, texts, s.includes⟩ := by
+  obtain ⟨nd, nb, hd, hb, _, hc⟩ := emitList_check W env cols _ texts s h hwf
+  obtain ⟨nd', hd', _, hf⟩ := emitList_fresh W env cols _ texts s h hp
+  simp only [List.nil_append] at hd hb hd'
+  constructor
+  · have := hc s.decls s.includes [] (by rw [hd]; exact fun d hd => hd) (fun i hi => hi)
+    simpa [hb] using this
+  · rw [hd']; exact hf.1
+
+/-- The same from the query as written: metadata specifications and built-ins make the table,
+the finder rewrites the columns, the emission produces the body.  A query that is not refused
+yields a body satisfying `PipeSpec` for the rewritten columns. -/
+theorem query_sound_partial (W : Char → Bool) (builtins : Table) (specs : List FSpec) (env : Env)
+    (cols : List Expr) (start : Nat) (body : Body)
+    (h : runQuery W builtins specs env cols start = .ok body)
+    (ht : tableWellFormed W (mkTable builtins specs) = true)
+    (hp : tablePrefixOk (mkTable builtins specs) = true)
+    (hc : WFList W cols = true) (hcp : PrefixOkList cols = true) :
+    ∃ cols', finderList (mkTable builtins specs) cols = .ok cols' ∧ PipeSpec W env cols' body := by
+  unfold runQuery at h
+  cases hf : finderList (mkTable builtins specs) cols with
+  | error x => simp [hf] at h
+  | ok cols' =>
+    simp only [hf] at h
+    cases he : emitList W env cols' ⟨start, [], [], []⟩ with
+    | error x => simp [he] at h
+    | ok r =>
+      obtain ⟨texts, s⟩ := r
+      simp only [he, Except.ok.injEq] at h
+      subst h
+      have hw := finderList_wf W _ ht hp cols cols' hf
+      exact ⟨cols', rfl, pipeline_sound_partial W env cols' start texts s he (hw.1 hc) (hw.2 hcp)⟩
+
+/-- With function names that do not end in a digit the generated name determines the counter
+value, so different call sites get different variables. -/
+theorem unique_name_injective_partial (p q : Str) (i j : Nat) (hp : noDigitEnd p = true)
+    (hq : noDigitEnd q = true) (h : uniqueName p i = uniqueName q j) : i = j :=
+  uniqueName_inj p q i j hp hq h
+
+/-- Without that restriction two different call sites can get the same "fresh" variable:
+function `f1` at counter 2 and function `f` at counter 12 are both `f12`
+(reproduced on the real code: two declarations `double f12;` in one block). -/
+theorem fresh_counterexample : uniqueName "f1".toList 2 = uniqueName "f".toList 12 := by decide
+
+/-- non-vacuity of `pipeline_sound_partial` / `query_sound_partial`: a nested call whose inner
+argument text mentions the outer parameter names is emitted and satisfies the specification -/
+example :
+    let s : FSpec := ⟨"myf".toList, ["a.h".toList], ["pt".toList, "eta".toList], ["auto result = pt + eta;".toList],
+      "result".toList, "double".toList, false, none⟩
+    let cols : List Expr := [.call (.name "myf".toList)
+        [.opaque "i_obj1->eta()".toList, .call (.name "myf".toList) [.opaque "i_obj1->pt()".toList, .opaque "1.0".toList]]]
+    (match runQuery asciiWord [] [s] [] cols 2 with
+     | .ok b => b.stmts.length == 2 && b.cols == ["myf2".toList]
+     | .error _ => false) = true := by decide
+
+end FaxVerif.C11
